@@ -447,6 +447,25 @@ def run_fault(rng):
         else:
             outs.append(held(sig=('fault', pager_mode, n, len(data), tuple(sorted(o))), counters={'fault_points': 1, 'fault_cases': 1 if n == 1 else 0}, sets=sets,
                              sample={'mode': 'pager' if pager_mode else 'stdout', 'fault_at_write': n, 'of': nwrites} if n == 1 else None))
+    # short writes: a write(2) that transfers only part of its bytes (what a signal during a blocked write does) must be
+    # continued by the caller; nothing may be lost, status and stderr as in the fault-free run (stdout mode: the bytes are
+    # compared; pager mode: what the stub pager passed on)
+    env.pop('WRITEFAULT_N', None)
+    env['WRITEFAULT_N'] = '0'
+    for n in rng.sample(list(range(1, nwrites + 1)), min(nwrites, 6)):
+        env['WRITEFAULT_SHORT'] = str(n)
+        r = run_plain(args, data, env=env, preload=SHIM, stdin_is_none=stdin_none, **kw)
+        c = crashmod.classify(r)
+        if c is not None:
+            outs.append(violated('c18:short-write:crash:' + c['signature'], 'short write at write call %d of %d: %s' % (n, nwrites, c['detail']), run=r, sets=sets))
+        elif r.rc != ref.rc or r.out != ref.out:
+            outs.append(violated('c18:short-write:output-lost', 'after a short write at write call %d of %d the output differs from the fault-free output '
+                                 '(%d bytes instead of %d, exit %d): the rest of a partially written chunk was dropped (%s mode)'
+                                 % (n, nwrites, len(r.out), len(ref.out), r.rc, 'pager' if pager_mode else 'stdout'), len(ref.out), len(r.out), run=r, sets=sets,
+                                 extra={'short_at': n, 'writes': nwrites}))
+        else:
+            outs.append(held(sig=('short', pager_mode, n, len(data), tuple(sorted(o))), counters={'short_write_points': 1}, sets=sets))
+    env.pop('WRITEFAULT_SHORT', None)
     try:
         os.unlink(wlog)
     except OSError:
